@@ -58,10 +58,13 @@ CONSTANTS
     Quals,       \* qualities of the exhaustive pool, subset of {"good","badsig","foreign","unprotected","overdraft"}
     MaxSub,      \* bound on the number of submissions of a behaviour
     MaxBlocks,   \* bound on the number of commits
+    MaxEvents,   \* bound on the number of account-rewriting events
     MaxLen,      \* length of simulated scripts
     Defects      \* subset of DefectNames (hypothetical defects: non-vacuity witnesses)
 
-DefectNames == {"no_increment", "nonce_not_checked", "chain_not_checked", "sig_not_checked", "check_leaks"}
+DefectNames == {"no_increment", "nonce_not_checked", "chain_not_checked", "sig_not_checked", "check_leaks",
+                "rewrite_resets_sequence"}
+EventKinds  == {"convert", "merge", "funder", "clawback", "back"}
 
 EthRoutes    == {"eth-legacy", "eth-accesslist", "eth-dynamicfee"}
 CosmosRoutes == {"cosmos-direct", "cosmos-amino-json"}
@@ -98,6 +101,11 @@ NonceMatch(tx, seq) ==
     LET ps == Parts(tx) IN
     \A i \in DOMAIN ps :
         ps[i].nonce = seq[ps[i].signer] + Cardinality({j \in 1..(i - 1) : ps[j].signer = ps[i].signer})
+\* what is counted as "executed once": every signed Ethereum message of a batch has its own
+\* identity (it can be wrapped again alone, the envelope is unsigned)
+ExecIds(tx) ==
+    IF "parts" \in DOMAIN tx /\ tx.parts # <<>> /\ "id" \in DOMAIN tx.parts[1]
+    THEN {tx.parts[i].id : i \in DOMAIN tx.parts} ELSE {tx.id}
 SumParts(tx, S) ==
     LET ps == Parts(tx)
         F[i \in 0..Len(ps)] == IF i = 0 THEN "0"
@@ -130,7 +138,7 @@ DeliverBroken(e, s, t, executed) ==
    \cup (IF e.ok
          THEN (IF e.sig = "bad" THEN {"executed-without-valid-signature"} ELSE {})
          \cup (IF ~NonceMatch(tx, s.seq) THEN {"executed-with-wrong-nonce"} ELSE {})
-         \cup (IF tx.id \in executed THEN {"executed-twice"} ELSE {})
+         \cup (IF ExecIds(tx) \cap executed # {} THEN {"executed-twice"} ELSE {})
          \cup (IF \E a \in PartSigners(tx) \cap DOMAIN s.seq : t.seq[a] # s.seq[a] + Use(tx, a)
                THEN {"sequence-not-advanced-exactly"} ELSE {})
          \cup (IF e.sig = "bad" \/ EffectOK(tx, s, t) THEN {} ELSE {"effect-differs-from-signed-content"})
@@ -148,8 +156,19 @@ CheckBroken(e, s, t) ==
 
 CommitBroken(s, t) == IF t.seq = s.seq THEN {} ELSE {"commit-changed-sequence"}
 
+\* Something else than a transaction of account a re-writes a's account object (a third party
+\* converts it into a vesting account, merges a grant, changes the funder, claws back, ...):
+\* a signed transaction executes at most once over ALL histories, so no such event may move
+\* anybody's sequence except by the one transaction of the event's own signer.
+EventBroken(e, s, t) ==
+        (IF \E b \in DOMAIN s.seq : t.seq[b] < s.seq[b] THEN {"sequence-decreased"} ELSE {})
+   \cup (IF \E b \in DOMAIN s.seq \ {e.by} : t.seq[b] # s.seq[b] THEN {"event-moved-sequence"} ELSE {})
+   \cup (IF e.by \in DOMAIN s.seq /\ t.seq[e.by] \notin {s.seq[e.by], s.seq[e.by] + 1}
+         THEN {"event-moved-sequence"} ELSE {})
+
 Broken(e, s, t, executed) ==
     CASE e.ev = "commit" -> CommitBroken(s, t)
+      [] e.ev = "event" -> EventBroken(e, s, t)
       [] e.ev = "submit" /\ e.mode = "deliver" -> DeliverBroken(e, s, t, executed)
       [] e.ev = "submit" /\ e.mode = "check" -> CheckBroken(e, s, t)
       [] OTHER -> {}
@@ -160,7 +179,7 @@ StepOK(e, s, t, executed) == Broken(e, s, t, executed) = {}
 NonceClass(tx, s, executed) ==
     IF tx.nonce = s.seq[tx.signer] THEN "valid"
     ELSE IF tx.nonce > s.seq[tx.signer] THEN "gap"
-    ELSE IF tx.id \in executed THEN "duplicate" ELSE "stale"
+    ELSE IF ExecIds(tx) \cap executed # {} THEN "duplicate" ELSE "stale"
 
 \* state invariants over (state, ghost)
 Inv_ExecutedBelowSeq(s, executed, txOf) ==
@@ -198,6 +217,14 @@ AnteSeq(tx, cur) == IF "no_increment" \in Defects THEN cur ELSE cur + Adv(tx)
 \* outcome [ok, post] of one event in state s
 MResult(s, ev, args) ==
     CASE ev = "commit" -> [ok |-> TRUE, post |-> [s EXCEPT !.cseq = s.seq]]
+      \* x/vesting messages that re-write the account object of args.target; only "back"
+      \* (MsgConvertVestingAccount) is signed by the account itself; the ante chain consumes one
+      \* sequence number of the signer args.by, the message touches nobody's sequence
+      [] ev = "event" ->
+           [ok |-> TRUE, post |->
+              IF "rewrite_resets_sequence" \in Defects /\ args.kind = "convert"
+              THEN [s EXCEPT !.seq[args.target] = 0]
+              ELSE IF args.by \in DOMAIN s.seq THEN [s EXCEPT !.seq[args.by] = @ + 1] ELSE s]
       [] ev = "submit" /\ args.mode = "deliver" ->
            LET tx == args.tx  a == tx.signer IN
            IF ~AnteOK(tx, s.seq[a]) THEN [ok |-> FALSE, post |-> s]
@@ -219,6 +246,8 @@ MResult(s, ev, args) ==
 Do(ev, args) ==
     LET r == MResult(st, ev, args)
         e == IF ev = "commit" THEN [ev |-> ev, ok |-> TRUE]
+             ELSE IF ev = "event" THEN [ev |-> ev, kind |-> args.kind, target |-> args.target,
+                                        by |-> args.by, ok |-> TRUE]
              ELSE [ev |-> ev, mode |-> args.mode, tx |-> args.tx, sig |-> QualSig(args.tx.q), ok |-> r.ok]
         exec == ev = "submit" /\ args.mode = "deliver" /\ r.ok
     IN /\ st' = r.post
@@ -229,12 +258,15 @@ Do(ev, args) ==
 
 Submit(tx, mode) == Do("submit", [mode |-> mode, tx |-> tx])
 Commit == nblocks < MaxBlocks /\ Do("commit", [x |-> 0])
+Event(k, a) == Do("event", [kind |-> k, target |-> a, by |-> IF k = "back" THEN a ELSE "g"])
+NEvents == Cardinality({i \in DOMAIN hist : hist[i].ev = "event"})
 
 NSub == Cardinality({i \in DOMAIN hist : hist[i].ev = "submit"})
 
 Next ==
     \/ (NSub < MaxSub /\ \E tx \in Pool, mode \in {"check", "deliver"} : Submit(tx, mode))
     \/ (NSub > 0 /\ hist[Len(hist)].ev # "commit" /\ Commit)
+    \/ (NSub > 0 /\ NEvents < MaxEvents /\ \E k \in {"convert", "back"}, a \in Signers : Event(k, a))
 
 Spec == Init /\ [][Next]_vars
 
@@ -256,7 +288,7 @@ MInv_Executed ==
 \* sequences never decrease
 MStep_Monotone == [][\A a \in Signers : st'.seq[a] >= st.seq[a]]_vars
 
-View == <<st, executed, twice, nblocks, NSub, IF hist = <<>> THEN "-" ELSE hist[Len(hist)].ev>>
+View == <<st, executed, twice, nblocks, NSub, NEvents, IF hist = <<>> THEN "-" ELSE hist[Len(hist)].ev>>
 
 ---------------------------------------------------------------------------
 (* behaviours as scripts for harness/signonce.go (-simulate) *)
@@ -293,9 +325,19 @@ SimInit ==
     /\ st = [seq |-> [a \in SimSigners |-> 0], cseq |-> [a \in SimSigners |-> 0]]
     /\ hist = <<>> /\ executed = {} /\ twice = {} /\ nblocks = 0
 
+\* an event that fits what the scripts did to the account so far (the harness tries it anyway)
+IsVesting(a, h) ==
+    LET evs == {i \in DOMAIN hist : hist[i].ev = "event" /\ hist[i].target = a} IN
+    evs # {} /\ hist[CHOOSE i \in evs : \A j \in evs : j <= i].kind # "back"
+SimEvent(h) ==
+    LET a == Pick(SimSigners, h) IN
+    IF IsVesting(a, h) THEN [kind |-> Pick({"merge", "funder", "clawback", "back", "back"}, h), target |-> a]
+    ELSE [kind |-> "convert", target |-> a]
+
 SimNext ==
     /\ Len(hist) < MaxLen
     /\ \/ \E tx \in {SimTx(hist)} : Submit(tx, "deliver")
+       \/ (Len(hist) > 1 /\ Pick(1..2, hist) = 1 /\ \E ev \in {SimEvent(hist)} : Event(ev.kind, ev.target))
        \/ \E tx \in {SimTx(hist)} : Submit(tx, "deliver")
        \/ \E tx \in {SimTx(hist)} : Submit(tx, "check")
        \/ (hist # <<>> /\ hist[Len(hist)].ev # "commit" /\ Do("commit", [x |-> 0]))
@@ -402,7 +444,17 @@ BatchMut(o, sh, mix) == o \o "@" \o ToString(sh[1]) \o "/" \o ToString(sh[2]) \o
 BatchCases == UNION {{[route |-> r, field |-> "batch", mut |-> BatchMut(o, sh, mix)] :
                          o \in BatchOffences(r), sh \in BatchShapes, mix \in {"same", "diff"}} : r \in EthRoutes}
 
-Cases == EthCases \cup SdkCases \cup BatchCases
+\* Batches of ONE sender in which every message is authorised but one of them fails INSIDE the
+\* virtual machine (a call that reverts, a call that runs out of gas) or is a contract creation
+\* (the state transition manages the sender nonce itself there).  The transaction is accepted;
+\* the account nonce must end at initial + number of messages, and afterwards every message,
+\* wrapped again alone, must be rejected (mut = <kind>@<position>/<size>).
+VmKinds == {"revert", "oog", "create"}
+VmMut(k, sh) == k \o "@" \o ToString(sh[1]) \o "/" \o ToString(sh[2])
+VmCases == {[route |-> r, field |-> "batch", mut |-> VmMut(k, sh)] : r \in EthRoutes, k \in VmKinds, sh \in BatchShapes}
+CreateMuts == {VmMut("create", sh) : sh \in BatchShapes}
+
+Cases == EthCases \cup SdkCases \cup BatchCases \cup VmCases
 
 EnvelopeFields == {"From", "Hash", "Size", "envFeeAmount", "envGasLimit", "envFeePayer", "envFeeGranter", "envMemo",
                    "envTimeoutHeight", "envSignatures", "envSignerInfos", "envExtensionOptions",
@@ -412,6 +464,7 @@ SigFields == {"v", "r", "s", "vrs", "signature", "signatures", "web3FeePayerSig"
 \* what the statement demands of a case
 ClassOf(c) ==
     IF c.field = "signedFor" THEN "foreign"
+    ELSE IF c \in VmCases THEN "vm"
     ELSE IF c.field = "batch" THEN "batch"
     ELSE IF c.field = "msgs" /\ c.mut = "duplicate" THEN "replay"
     ELSE IF c.field \in EnvelopeFields THEN "envelope"
@@ -438,7 +491,7 @@ ClassOf(c) ==
     ELSE "signed"
 
 MustReject == {"signed", "sig", "foreign", "replay", "batch"}
-SigOfClass(cl) == IF cl \in MustReject THEN "bad" ELSE "may"
+SigOfClass(cl) == IF cl \in MustReject THEN "bad" ELSE IF cl = "vm" THEN "good" ELSE "may"
 
 \* depth-1 machine: TLC enumerates the matrix and prints every case for the harness
 MatrixNext ==
